@@ -58,7 +58,7 @@ def crosscheck(pid, tier, cmds_outs, k, seed):
     fails = coq_eval_cases(sample, f"{pid}_{tier}")
     if fails:
         raise RuntimeError(f"extracted driver and vm_compute disagree on commands {fails}")
-    return dict(cases=len(sample), differing=0)
+    return dict(cases=len(sample), evaluated_in_kernel=getattr(coq_eval_cases, 'evaluated', 0), differing=0)
 
 
 def flat_of(mat):
